@@ -48,7 +48,9 @@ def write_replay(prop, kind, payload):
     payload = dict(payload)
     payload["property"] = prop
     payload["kind"] = kind
-    payload["replay_cmd"] = f"cd /verif && ./check {prop} --replay {path}"
+    payload["seed"] = int(os.environ.get("VERIF_SEED") or 0)
+    payload["pythonhashseed"] = os.environ.get("PYTHONHASHSEED")
+    payload["replay_cmd"] = f"cd /verif && VERIF_SEED={int(os.environ.get('VERIF_SEED') or 0)} ./check {prop} --replay {path}"
     path.write_text(json.dumps(jsonable(payload), indent=1, sort_keys=True))
     return path
 
